@@ -27,13 +27,13 @@ TEXT = {
  "C10": ("exploration", "reference implementations written from the RFCs (PRF, EMS, key block, verify_data, exporters, GCM/CCM/ChaCha/CBC records with RFC 9146 CID layouts, HKDF-Expand-Label, traffic keys, sequence-number masking, 1.3 AEAD) compared with the library on generated inputs, and a passive decoder that must decrypt, verify both Finished and reproduce the exporter of live sessions from the key log / secret hook alone (each side's key log separately, resumed sessions, later 1.3 generations derived by the decoder itself); records re-protected by a translator with the header layouts this library never writes (8-bit sequence number, no length) must be accepted",
          "reference and library share crypto/aes, sha256, x/crypto chacha20poly1305 primitives; CCM and HKDF are re-implemented; RFC test vectors pin the references",
          "differential property-based testing (rapid) against independent RFC reference implementations + live-session passive decoding; oracle = byte equality"),
- "C11": ("exploration", "generated client/server policies (version ranges, suite lists, key types, curves, signature schemes, SRTP, ALPN, EMS modes, PSK hints, certificates of several key types selected by name, option order) run live; negotiated outputs compared with a policy model; failure must come with an alert and no silent downgrade",
+ "C11": ("exploration", "generated client/server policies (version ranges, suite lists, key types, curves, signature schemes, SRTP, ALPN, EMS modes, PSK hints, certificates of several key types selected by name, option order, verifying clients, client authentication, certificate-signature-scheme lists on either side) run live; negotiated outputs compared with a policy model; failure must come with an alert and no silent downgrade",
          "policy model written from documented option semantics; where documentation is silent the model abstains (class 'unspecified')",
          "property-based testing (rapid) over policy pairs against a negotiation model on a virtual network; oracle = every negotiated parameter inside both policies and highest common version"),
  "C05": ("exploration", "every suite x CID layout x direction: held genuine records, generated forgeries (all header/edge bit flips, field neighbour values, truncations, extensions, cross-session splices incl. a second resumption of the same stored session under deterministic hello randoms, recombinations, records protected under keys derived from public values) must vanish without effect and the genuine record must still be delivered once",
          "forger holds no keys; soundness of the AEAD/HMAC primitives assumed",
          "property-based testing (rapid) + exhaustive mutation grid per suite; oracle = vanish without effect (no read, no emission, no error, connection open) then genuine record accepted"),
- "C06": ("exploration", "arrival sequences with repetitions over captured records, all short sequences enumerated for windows 1..3, sampled long ones aimed at the window edge for windows up to 1000; for DTLS 1.3 up to 8 key updates between rounds with late duplicates of datagrams read under earlier epochs; receiver optionally exported/imported with its window option; application data overtaking the final handshake flight",
+ "C06": ("exploration", "arrival sequences with repetitions over captured records, all short sequences enumerated for windows 1..3, sampled long ones aimed at the window edge for windows up to 1000; for DTLS 1.3 up to 8 key updates between rounds with late duplicates of datagrams read under earlier epochs; receiver optionally exported/imported with its window option; application data overtaking the final handshake flight; arrival sequences across the wrap of DTLS 1.3's 16 transmitted sequence-number bits (65 511 records first)",
          "records of a round carry consecutive sequence numbers (written at quiescence); model used one-sidedly as the statement is worded",
          "exhaustive enumeration of short arrival sequences + rapid sampling; oracle = sliding-window reference model"),
  "C09": ("exploration", "sessions with concurrent writers, forced handshake retransmissions, alerts, 1.3 key updates, export/import seams and counters rewritten to 2^48-j; sequence numbers read off the wire (1.3 via independent decoder) must strictly increase per epoch",
@@ -42,7 +42,7 @@ TEXT = {
  "C12": ("exploration", "generated partitions/permutations of handshake fragments against a byte-level reference reassembler; small space (2 messages, len<=3/4) enumerated exhaustively; long sessions (150..420 multi-fragment messages through one buffer); overlapping / gapped fragment ranges (safety half); sender side: live handshakes at every MTU 24..900, no fragment larger than the MTU; records of a flight delivered in permuted order inside a live connection must complete at virtual time 0",
          "trusted: reference reassembler in harness/c12; liveness (every message surfaces) is asserted only when the fragments tile every message",
          "property-based testing (rapid) + exhaustive small-space enumeration against a reference model; native coverage-guided fuzzing (thorough); live-connection grids on a virtual network"),
- "C13": ("exploration", "raw client built by byte surgery on a genuine ClientHello: sequences of second hellos (cookie variant x body alteration x repetition x virtual-time gap x fragmentation), both versions; grid of cookie x alteration enumerated",
+ "C13": ("exploration", "raw client built by byte surgery on a genuine ClientHello: sequences of second hellos (cookie variant x body alteration x repetition x virtual-time gap x fragmentation), both versions, incl. a HelloRetryRequest that selects a group and a pre_shared_key only the second hello has; grid of cookie x alteration enumerated",
          "cookie unpredictability not testable; judged on what the server emits and at which virtual instants",
          "property-based testing (rapid) + enumerated grid against a live server on a virtual clock; oracle = only cookie requests/alerts, only at receipt instants, bounded bytes, until the exact echo"),
  "C17": ("exploration", "endpoint observed against a scripted peer (silence from every flight boundary, new flight after b rungs, stale replays, junk) for both roles, 7 variants, intervals 1 ms..60 s, backoff on/off; emission instants compared exactly with the schedule on virtual time",
